@@ -3,6 +3,7 @@ package main
 import (
 	"bufio"
 	"crypto/tls"
+	"errors"
 	"fmt"
 	"net"
 	"os"
@@ -24,12 +25,13 @@ func init() {
 // case: "race <clients> <rounds> <seed> <flags>"  flags: config, churn, conns, lifecycle
 func genC14(tier string, seed uint64, emit func(string)) {
 	r := NewRng(seed)
-	n := 12
+	n := 14
 	if tier == "thorough" {
-		n = 72
+		n = 84
 	}
 	combos := []string{"config", "churn", "conns", "config,churn,conns", "config,churn,conns,lifecycle", "churn,lifecycle", "auth,config,churn", "auth,config,churn,conns,lifecycle",
-		"tls,flap,churn,lifecycle", "tls,config,churn,conns,lifecycle", "tls,flap,auth,config,churn,conns,lifecycle", "flap,churn,lifecycle"}
+		"tls,flap,churn,lifecycle", "tls,config,churn,conns,lifecycle", "tls,flap,auth,config,churn,conns,lifecycle", "flap,churn,lifecycle",
+		"badclose,churn", "badclose,tls,config,churn,conns"}
 	for i := 0; i < n; i++ {
 		clients := []int{2, 4, 8, 16, 32}[r.Intn(5)]
 		emit(fmt.Sprintf("race %d %d %d %s", clients, 30+r.Intn(60), r.U64()%1000000, combos[i%len(combos)]))
@@ -209,6 +211,21 @@ func runC14(toks []string) Result {
 			}
 		}()
 	}
+	if flags["badclose"] {
+		// connections whose Close fails (the peer is gone, the close_notify cannot be written ...): several of them are
+		// still registered when Stop closes the registry
+		for i := 0; i < 8; i++ {
+			cl, sv := net.Pipe()
+			go func() {
+				defer func() { recover() }()
+				srv.VerifServeConn(&failingCloseConn{Conn: sv}, nil)
+			}()
+			cl.SetDeadline(time.Now().Add(2 * time.Second))
+			cl.Write(reqS("PING"))
+			readReply(bufio.NewReader(cl))
+			defer cl.Close()
+		}
+	}
 	done := make(chan struct{})
 	go func() { wg.Wait(); close(done) }()
 	stuck := ""
@@ -246,6 +263,15 @@ func runC14(toks []string) Result {
 	}
 	sort.Strings(reports)
 	return Result{Obs: "races:" + strings.Join(reports, "|"), Oracle: "fail:data race in the framework: " + trunc(reports[0], 160), Tags: tags}
+}
+
+// failingCloseConn closes its connection and reports an error (as a TLS connection does when its close_notify cannot
+// be written any more).
+type failingCloseConn struct{ net.Conn }
+
+func (c *failingCloseConn) Close() error {
+	c.Conn.Close()
+	return errors.New("close failed")
 }
 
 // collectRaceReports reads the race detector's log files (GORACE=log_path) and returns the distinct pairs of
